@@ -74,6 +74,10 @@ def node(kind, id_, parents, k0, sp):
     if kind == "CG":     # a group clipped by a clip path that follows the parent's geometry
         return (f'<g id="{id_}" clip-path="url(#cp{id_})"><rect xy="{p[0]}|v {a[0]}" {size(a[1], a[2])}/></g>'
                 f'<clipPath id="cp{id_}"><rect xy="{p[0]}@tl" wh="{a[3]} 300"/></clipPath>', [(2, *GP), (6, *SZ), (8, *SZ), (4, *SZ)])
+    if kind == "CP":     # a clip path of its own that follows the parent's geometry
+        return f'<clipPath id="{id_}"><rect xy="{p[0]}@tl" wh="{a[0]} 300"/></clipPath>', [(4, *SZ)]
+    if kind == "GC":     # a group with absolute content, clipped by the parent (a clip path): its extent depends on the clip path being known
+        return f'<g id="{id_}" clip-path="url({p[0]})"><rect xy="{a[0]} {a[1]}" {size(a[2], a[3])}/></g>', [(-3, *POS), (-5, *POS), (40, *SZ), (9, *SZ)]
     if kind == "EZ":     # expression-form references to size scalars only (own position absolute)
         return f'<rect id="{id_}" {pos(a[0], a[1])} width="{{{{{p[0]}~w}}}}" height="{{{{{p[0]}~h * 2}}}}"/>', [(70, *POS), (-60, *POS)]
     if kind == "ER":     # expression-form reference to the radius-like scalars
@@ -142,11 +146,11 @@ def templates(tier, seed):
             tds.append(dict(fam="order", shape="chain3", kinds=["R", "H", "S1"], sp=si, perm=list(perm)))
     for kinds, shape in ((["R", "G", "S2x"], "g-surround"), (["R", "Hd", "E"], "chain3"), (["R", "G", "S1"], "chain3"), (["C", "Hd", "ER"], "chain3"), (["R", "G", "E"], "chain3"), (["R", "Hd", "EZ"], "chain3"), (["C", "L", "EZ"], "chain3"),
                          (["R", "T", "H"], "chain3"), (["R", "Tc", "L"], "chain3"), (["R", "Tx", "H"], "chain3"), (["R", "PA", "H"], "chain3"), (["R", "PA", "S1"], "chain3"),
-                         (["C", "LC", "H"], "chain3"), (["R", "CG", "H"], "chain3"), (["R", "CG", "S1"], "chain3"), (["R", "T", "S1"], "chain3"), (["R", "PL", "S1"], "chain3")):
+                         (["C", "LC", "H"], "chain3"), (["R", "CP", "GC"], "chain3"), (["R", "CP", "GC", "S1"], "chain4"), (["R", "CP", "GC", "H"], "chain4"), (["R", "CG", "H"], "chain3"), (["R", "CG", "S1"], "chain3"), (["R", "T", "S1"], "chain3"), (["R", "PL", "S1"], "chain3")):
         if shape == "g-surround":
             continue
-        for si in range(4):
-            for perm in itertools.permutations(range(3)):
+        for si in (range(4) if len(kinds) == 3 else (0, 2)):
+            for perm in itertools.permutations(range(len(kinds))):
                 tds.append(dict(fam="order", shape=shape, kinds=kinds, sp=si, perm=list(perm)))
     for si in (0, 2):
         for perm in itertools.permutations(range(4)):
@@ -154,7 +158,7 @@ def templates(tier, seed):
     for bad in ("unknown-id", "cycle2", "cycle3", "self", "no-bbox", "unknown-surround", "unknown-connector", "cycle-size"):
         tds.append(dict(fam="unsat", case=bad))
     if tier == "quick":
-        keep = [t for t in tds if t["fam"] == "unsat" or t.get("kinds") in (["R", "H", "S1"], ["R", "T", "H"], ["R", "Tc", "L"], ["R", "Tx", "H"], ["R", "PA", "H"], ["R", "PA", "S1"], ["C", "LC", "H"], ["R", "CG", "H"], ["R", "CG", "S1"], ["R", "T", "S1"], ["R", "PL", "S1"], ["R", "Hd", "EZ"], ["C", "L", "EZ"], ["R", "Hd", "E"], ["R", "G", "S1"], ["C", "Hd", "ER"], ["R", "G", "E"], ["R", "R", "G", "S2"])]
+        keep = [t for t in tds if t["fam"] == "unsat" or t.get("kinds") in (["R", "H", "S1"], ["R", "T", "H"], ["R", "Tc", "L"], ["R", "Tx", "H"], ["R", "PA", "H"], ["R", "PA", "S1"], ["C", "LC", "H"], ["R", "CP", "GC"], ["R", "CP", "GC", "S1"], ["R", "CP", "GC", "H"], ["R", "CG", "H"], ["R", "CG", "S1"], ["R", "T", "S1"], ["R", "PL", "S1"], ["R", "Hd", "EZ"], ["C", "L", "EZ"], ["R", "Hd", "E"], ["R", "G", "S1"], ["C", "Hd", "ER"], ["R", "G", "E"], ["R", "R", "G", "S2"])]
         rest = [t for t in tds if t not in keep]
         tds = keep + sample_quota(rest, lambda t: (t["shape"],), {"pair": 20, "chain3": 50, "fan3": 40, "join3": 40, "chain4": 30, "diamond4": 30, "join-then4": 30, "mixed4": 30, "g-and-sibling": 0}, seed)
     return tds
@@ -267,6 +271,10 @@ def build(td, wrong=False):
                     obls.append(Obl(f"root.{a}[{j}]", ne(x, y)))
         return obls
     # role signature for known-finding matching: a <use> taking part in a forward-reference DAG is a class of its own
-    role = ("C10/forward-reference-through-use" if "U" in kinds else "C10/forward-reference-through-clip-path" if "CG" in kinds else "C10/order/" + "-".join(kinds))
+    # ... and so is a clip path that cannot be resolved at its first attempt (it stays registered without a box)
+    def firstpass(i):       # resolved on the first attempt: everything it follows comes earlier and was itself resolved at once
+        return all(perm.index(j) < perm.index(i) and firstpass(j) for j in parents[i])
+    clip_first = any(k in ("CG", "CP") and not firstpass(i) for i, k in enumerate(kinds))
+    role = ("C10/forward-reference-through-use" if "U" in kinds else "C10/forward-reference-through-clip-path" if clip_first else "C10/order/" + "-".join(kinds))
     name = f"order/{shape}/{'-'.join(kinds)}/sp{td['sp']}/{''.join(map(str, perm))}"
     return Template(name, [doc_perm, doc_sorted], vars_, check, family=f"order-{shape}", role=role, cap=3 if has_conn else 6, explore=not has_conn)
